@@ -176,7 +176,8 @@ def run(ctx: Ctx, env):
     gm = grammar_module(env)
     kf = env.kindflow
     full = ctx.tier == "thorough"
-    alpha = rx.Alphabet.for_patterns([r.pattern for r in g.rules] + list(SPEC.values()) + [RESERVED, r"[\s\S]", r"\w"], g.reflags, full=full,
+    alpha = rx.Alphabet.for_patterns([r.pattern for r in g.rules] + [RESERVED, r"[\s\S]", r"\w"], g.reflags, full=full,
+                                     alt=[(sp, ("re.I",)) for sp in SPEC.values()],  # the specification is read under its own flags, not the lexer's
                                      extra_chars="(),/:= \t\n")
     ctx.analysed["alphabet_classes"] = alpha.n
     ctx.analysed["universe"] = alpha.universe_size
